@@ -19,14 +19,27 @@ part "text": every string over {a, b, space, W (wide), Z (zero width), "\\n"} --
     through Cast(Text(s)); through single Text options (justify / overflow / no_wrap) the measurement
     clause is unchanged and the wrap clause compares line count and non-blank characters.
 
-Finding keys: "range/<clause>/<kind of the deepest node whose own measurement is out of range>", "fit/<C01 blame key>" (e.g. "fit/table/leading"),
+part "history" (E2 style): a measurement is a function of the renderable's CURRENT content.  For Text with every
+    in-place mutator (plain=, append, append_text, append_tokens, pad, pad_left, pad_right, truncate, truncate with
+    pad=True / ellipsis, right_crop, set_length up / down, align, expand_tabs, rstrip, rstrip_end, remove_suffix,
+    stylize) and for the mutable containers (Table.add_row / add_column, Tree.add at the root / below the first
+    child, Columns.add_renderable / renderables.append, RenderGroup.renderables.append, Panel / Padding / Align /
+    Constrain / Styled .renderable reassigned): every history of length <= 3 (thorough <= 4) over {measure at A1,
+    measure at A2, render at W, mutator_i} that ends in a measure.  The last Measurement.get must equal that of an
+    object that went through the mutators only (never measured or rendered before) and that of a FRESH object built
+    directly in the final state (Text(final plain); gen.build(final description) where the mutation is expressible
+    as a description), and must satisfy the normal clauses (range; widest word / line for tab-free text; no overflow
+    when rendered at the reported values at or above the structural minimum).
+
+Finding keys: "history/<kind>/measure-differs-from-fresh", "history/<kind>/<clause>",
+"range/<clause>/<kind of the deepest node whose own measurement is out of range>", "fit/<C01 blame key>" (e.g. "fit/table/leading"),
 "text/min", "text/max", "text/max/blank-lines", "text/wrap-at-max", "crash/<Type>/<file>:<function>".
 
-Measured (machine shared with ~15 other agents, load average 80-160, VF_WORKERS=4; CPU time is the figure):
-    quick     26 k trees + 9 331 strings, 1 000 630 Measurement.get / wrap evaluations (+ ~250 k feedback renders),
-              236 outcome signatures (154 non-trivial), ~470 CPU-s (~30 s on 16 cores)
-    thorough  111 k trees + 335 923 strings, 13 700 858 evaluations, 249 signatures (162 non-trivial),
-              ~3 000 CPU-s (~3.5 min on 16 cores)
+Measured (default 16 workers, machine shared with other agents, load average 20-60; CPU time is the figure):
+    quick     26 k trees + 9 331 strings + 7 910 histories, 1 008 540 evaluations (+ ~266 k feedback renders),
+              416 outcome signatures (175 non-trivial), ~465 CPU-s (29 s on 16 free cores; 34-64 s wall observed)
+    thorough  140 k trees + 335 923 strings + 159 884 histories, ~14.75 M evaluations, ~3 450 CPU-s
+              (583 s wall under load, before the history part was added: 14 592 182 evaluations)
 """
 import itertools
 import os
@@ -226,6 +239,230 @@ def check_text(s, aset, res, opts=None, wrapper=None):
         res.sig(("wrap", min(len(want), 3), ok, bool(opts), wrapper), nontrivial=len(want) > 1 or " " in s)
 
 
+# ------------------------------------------------------------------ history part
+HIST_A = {"M1": 100, "M2": 3}
+HIST_W = 4
+HIST_DEPTH = {"quick": 3, "thorough": 4}
+OBSERVERS = ("M1", "M2", "R")
+
+TEXT_MUTATORS = ["plain=", "append", "append_text", "append_tokens", "pad", "pad_left", "pad_right", "truncate",
+                 "truncate_pad", "truncate_ellipsis", "right_crop", "set_length+", "set_length-", "align",
+                 "expand_tabs", "rstrip", "rstrip_end", "remove_suffix", "stylize"]
+HIST_STR = ["xy z", "q", "long word here", "p"]          # j-th new content
+HIST_CELL = ["x y", "abcdefgh", "", "k"]
+
+
+def _child_j(j):
+    return gen.T(["a\nbb c", "abcdefgh", "x", "ab cd"][j % 4])
+
+
+def hist_subjects():
+    """(kind, initial description, mutators)"""
+    T = gen.T
+    subs = [("text", T(t), TEXT_MUTATORS) for t in
+            ("hello", "ab cd", "id\tname of thing", gen.WIDE_IN + "x y", "a\nbb c", "")]
+    subs.append(("text", T("ab cd", justify="center"), TEXT_MUTATORS))
+    one = {"ncols": 1, "cols": [{}]}
+    two = {"ncols": 2, "cols": [{}, {}]}
+    subs += [
+        ("table", ["table", dict(one), [T("ab cd")]], ["add_row", "add_column"]),
+        ("table", ["table", dict(two), []], ["add_row", "add_column"]),
+        ("table", ["table", dict(two, expand=True), [T("a"), T("ab cd")]], ["add_row", "add_column"]),
+        ("tree", ["tree", {"shape": "flat"}, [T("n0")]], ["add_root", "add_child"]),
+        ("tree", ["tree", {"shape": "flat"}, [T("n0"), T("n1 x"), T("n2")]], ["add_root", "add_child"]),
+        ("columns", ["columns", {}, [T("i0"), T("i1xx")]], ["add_renderable", "append"]),
+        ("columns", ["columns", {"equal": True, "expand": True}, [T("i0"), T("i1xx")]], ["add_renderable", "append"]),
+        ("group", ["group", {}, [T("g0"), T("g1\nz")]], ["append"]),
+        ("group", ["group", {"fit": False}, [T("g0")]], ["append"]),
+        ("panel", ["panel", {}, [T("ab cd")]], ["set_child"]),
+        ("panel", ["panel", {"expand": False, "title": "ti"}, [T("ab cd")]], ["set_child"]),
+        ("padding", ["padding", {"pad": [0, 2]}, [T("ab cd")]], ["set_child"]),
+        ("padding", ["padding", {"expand": False}, [T("ab cd")]], ["set_child"]),
+        ("align", ["align", {"align": "center"}, [T("ab cd")]], ["set_child"]),
+        ("constrain", ["constrain", {"width": 4}, [T("ab cd")]], ["set_child"]),
+        ("styled", ["styled", {}, [T("ab cd")]], ["set_child"]),
+    ]
+    return subs
+
+
+def hist_mutate(obj, kind, mut, j):
+    """apply the j-th mutation of a history to the real object through its public interface"""
+    from rich.text import Text
+    j4 = j % 4
+    if kind == "text":
+        if mut == "plain=":
+            obj.plain = HIST_STR[j4]
+        elif mut == "append":
+            obj.append([" wxyz", gen.WIDE_IN, " q", "\n"][j4])
+        elif mut == "append_text":
+            obj.append_text(Text(" tt" + "u" * j4, style="bold"))
+        elif mut == "append_tokens":
+            obj.append_tokens([(" k", None), ("lm" * (j4 + 1), "red")])
+        elif mut == "pad":
+            obj.pad(2)
+        elif mut == "pad_left":
+            obj.pad_left(3)
+        elif mut == "pad_right":
+            obj.pad_right(3)
+        elif mut == "truncate":
+            obj.truncate(3)
+        elif mut == "truncate_pad":
+            obj.truncate(12, pad=True)
+        elif mut == "truncate_ellipsis":
+            obj.truncate(4, overflow="ellipsis")
+        elif mut == "right_crop":
+            obj.right_crop(1)
+        elif mut == "set_length+":
+            obj.set_length(len(obj) + 4)
+        elif mut == "set_length-":
+            obj.set_length(max(0, len(obj) - 2))
+        elif mut == "align":
+            obj.align("center", 14)
+        elif mut == "expand_tabs":
+            obj.expand_tabs(8)
+        elif mut == "rstrip":
+            obj.rstrip()
+        elif mut == "rstrip_end":
+            obj.rstrip_end(3)
+        elif mut == "remove_suffix":
+            obj.remove_suffix(obj.plain[-2:])
+        elif mut == "stylize":
+            obj.stylize("bold", 0, 2)
+        else:
+            raise ValueError(mut)
+    elif kind == "table":
+        if mut == "add_row":
+            obj.add_row(*[Text(HIST_CELL[j4]) for _ in obj.columns])
+        else:
+            i = len(obj.columns)
+            obj.add_column(gen.HEADERS[i % len(gen.HEADERS)], gen.FOOTERS[i % len(gen.FOOTERS)])
+    elif kind == "tree":
+        target = obj.children[0] if (mut == "add_child" and obj.children) else obj
+        target.add(Text(HIST_STR[j4]))
+    elif kind == "columns":
+        if mut == "add_renderable":
+            obj.add_renderable(Text(HIST_STR[j4]))
+        else:
+            obj.renderables.append(Text(HIST_STR[j4]))
+    elif kind == "group":
+        obj.renderables.append(Text(HIST_STR[j4]))
+    else:
+        obj.renderable = gen.build(_child_j(j))
+
+
+def hist_apply(d, kind, mut, j):
+    """the same mutation on the description, or None where the description format cannot express the result"""
+    if d is None or kind == "text":
+        return None
+    k, o, kids = d
+    j4 = j % 4
+    if kind == "table":
+        if mut == "add_row":
+            if o["ncols"] == 0:
+                return None
+            return [k, o, kids + [gen.T(HIST_CELL[j4])] * o["ncols"]]
+        if kids:
+            return None         # a column added after rows has fewer cells than its siblings
+        no = dict(o)
+        no["ncols"] = o["ncols"] + 1
+        no["cols"] = list(o["cols"]) + [{}]
+        return [k, no, kids]
+    if kind == "tree":
+        if mut == "add_child" and len(kids) > 1:
+            return None         # below the first child: not a "flat" tree any more
+        return [k, o, kids + [gen.T(HIST_STR[j4])]]
+    if kind in ("columns", "group"):
+        return [k, o, kids + [gen.T(HIST_STR[j4])]]
+    return [k, o, [_child_j(j)]]
+
+
+def gen_histories(tier):
+    depth = HIST_DEPTH[tier]
+    for si, (kind, init, muts) in enumerate(hist_subjects()):
+        alphabet = list(OBSERVERS) + list(muts)
+        for n in range(1, depth + 1):
+            for evs in itertools.product(alphabet, repeat=n):
+                if evs[-1] in HIST_A:
+                    yield {"part": "history", "kind": kind, "subject": si, "init": init, "events": list(evs)}
+
+
+def check_history(case, res):
+    from rich.measure import Measurement
+    from rich.text import Text
+    kind, init, events = case["kind"], case["init"], case["events"]
+    con = gen.make_console("utf8")
+    A = HIST_A[events[-1]]
+    pattern = []
+    try:
+        obj, ref, mirror = gen.build(init), gen.build(init), init
+        j, m = 0, None
+        for ev in events:
+            if ev in HIST_A:
+                m = Measurement.get(con, obj, HIST_A[ev])
+                pattern.append("O")
+            elif ev == "R":
+                for _ in con.render(obj, con.options.update(width=HIST_W)):
+                    pass
+                pattern.append("O")
+            else:
+                hist_mutate(obj, kind, ev, j)
+                hist_mutate(ref, kind, ev, j)
+                mirror = hist_apply(mirror, kind, ev, j)
+                j += 1
+                pattern.append("M")
+        fresh = [("the mutators only", Measurement.get(con, ref, A))]
+        if kind == "text":
+            plain = ref.plain
+            fresh.append(("Text(final plain)", Measurement.get(con, Text(plain, justify=ref.justify), A)))
+        elif mirror is not None:
+            fresh.append(("gen.build(final description)", Measurement.get(con, gen.build(mirror), A)))
+    except Exception as e:  # noqa: BLE001
+        res.evaluations += 1
+        res.violate("history/%s/%s" % (kind, c01.crash_key(e)), case, "%s: %s" % (type(e).__name__, e))
+        return
+    res.evaluations += 1
+    pat = "".join(pattern)
+    stale_risk = "O" in pat and "M" in pat[pat.index("O"):]      # something was observed, then mutated
+    res.sig(("history", kind, pat, events[-1], m[1] == A, m[0] == m[1]), nontrivial=stale_risk)
+    for how, fm in fresh:
+        if tuple(m) != tuple(fm):
+            res.violate("history/%s/measure-differs-from-fresh" % kind, case,
+                        "after %r Measurement.get(.., %d) = %r, an object built through %s gives %r"
+                        % (events, A, tuple(m), how, tuple(fm)))
+            break
+    prob = _range_problem(m, A)
+    if prob:
+        res.violate("history/%s/range/%s" % (kind, prob), case, "after %r Measurement.get(.., %d) = %r"
+                    % (events, A, tuple(m)))
+        return
+    if kind == "text":
+        if "\t" not in plain:
+            word, line = _ref(plain)
+            if m[1] != min(line, A):
+                res.violate("history/text/max", case, "after %r the text is %r, maximum %d, widest line %d cells"
+                            % (events, plain, m[1], min(line, A)))
+            elif word is not None and m[0] != min(word, A):
+                res.violate("history/text/min", case, "after %r the text is %r, minimum %d, widest word %d cells"
+                            % (events, plain, m[0], min(word, A)))
+            elif line >= 1 and A >= line:
+                got = gen.render_text_lines(con, obj, line)
+                want = plain.split("\n")
+                if [g.strip(" ") for g in got] != [w.strip(" ") for w in want]:
+                    res.violate("history/text/wrap-at-max", case, "after %r the text %r rendered at its maximum %d "
+                                "gives %r" % (events, plain, line, got))
+        sm = 2 if any(sw(c) == 2 for c in plain) else 1
+    elif mirror is not None:
+        sm = max(1, struct_min(mirror))
+    else:
+        return
+    for which, v in (("max", m[1]), ("min", m[0])):
+        if v >= sm:
+            ws = gen.render_widths(con, obj, v)
+            if ws and max(ws) > v:
+                res.violate("history/%s/fit" % kind, case, "after %r rendering at the reported %s %d gives a line of "
+                            "%d cells" % (events, which, v, max(ws)))
+
+
 # ------------------------------------------------------------------ protocol
 def plan(tier, seed):
     shards = []
@@ -241,6 +478,8 @@ def plan(tier, seed):
     shards += [{"part": "text", "i": i, "n": nt} for i in range(nt)]
     no = 4 if tier == "quick" else 16
     shards += [{"part": "textopt", "i": i, "n": no} for i in range(no)]
+    nh = 4 if tier == "quick" else 32
+    shards += [{"part": "history", "i": i, "n": nh} for i in range(nh)]
     return shards
 
 
@@ -302,6 +541,17 @@ def run_shard(sh, tier, seed):
             for name, val in TEXT_OPTS:
                 check_text(s, A_SHORT, res, opts={name: val})
             res.count("strings_with_options")
+    elif part == "history":
+        for idx, case in enumerate(gen_histories(tier)):
+            if idx % n != i:
+                continue
+            if deadline_passed():
+                res.capped = True
+                break
+            check_history(case, res)
+            res.count("histories")
+            if idx % 2999 == 0:
+                res.sample({k: case[k] for k in ("part", "kind", "init", "events")})
     return res
 
 
@@ -316,9 +566,13 @@ def describe(tier, seed, res):
                  "strings of length <= %d x short A-set x {Cast, 8 single Text options}. An evaluation is one "
                  "Measurement.get (or one wrap-at-maximum render); %d feedback renders were judged. Non-trivial: a "
                  "reported minimum / maximum at or above the structural minimum was fed back into a render, or a text whose "
-                 "widest word differs from its widest line or is clamped by A."
+                 "widest word differs from its widest line or is clamped by A. history part: %d subjects (7 Text x 19 "
+                 "in-place mutators; Table, Tree, Columns, RenderGroup, Panel, Padding, Align, Constrain, Styled with their "
+                 "public mutations) x every history of length <= %d over {measure at 100, measure at 3, render at 4, "
+                 "mutator_i} ending in a measure = %d histories; non-trivial when a mutation follows a measure / render."
                  % ("; ".join(parts), res.counters.get("trees_wrapped", 0), list(A_SHORT),
-                    res.counters.get("strings", 0), TEXT_LEN[tier], TEXT_OPT_LEN[tier], res.counters.get("renders", 0))),
+                    res.counters.get("strings", 0), TEXT_LEN[tier], TEXT_OPT_LEN[tier], res.counters.get("renders", 0),
+                    len(hist_subjects()), HIST_DEPTH[tier], res.counters.get("histories", 0))),
         "assumptions": [
             "struct_min (vf/structmin.py) errs on the large side; reported values below it are not rendered",
             "a text without any word has no minimum clause; tabs are excluded from the text part",
@@ -326,7 +580,8 @@ def describe(tier, seed, res):
             "tables have columns free to wrap (no fixed widths / min_width / no_wrap), as in C01",
         ],
         "coverage": {"trees": res.counters.get("trees", 0), "strings": res.counters.get("strings", 0),
-                     "feedback_renders": res.counters.get("renders", 0)},
+                     "feedback_renders": res.counters.get("renders", 0),
+                     "histories": res.counters.get("histories", 0)},
     }
 
 
@@ -338,6 +593,8 @@ def replay(case):
     elif part == "fit":
         c01.check_case(case["tree"], case["W"], "utf8", res)
         return [("fit/" + k if not k.startswith("crash/") else k, v[2]) for k, v in sorted(res.violations.items())]
+    elif part == "history":
+        check_history(case, res)
     elif part == "text":
         aset = [case["A"]] if "A" in case else []
         check_text(case["s"], aset, res, opts=case.get("opts") or None, wrapper=case.get("wrapper"))
